@@ -47,6 +47,10 @@ def configs(tier, seed):
             for grid in ("unit", "uneven"):
                 ek = "x".join(f"{l}{k}" for l, k in extra.items()) or "-"
                 out.append(dict(h="cohorts", op=kind + "again", key=f"cohorts/{kind}/grid={grid}/n=3/extra={ek}/computed_before", kind=kind, grid=grid, n=3, extra=extra, again=True))
+    # a second model of the same class and shape is computed before the first one's tables are read (two stocks of one system)
+    for kind in KINDS:
+        for other in ("same_kind", "idsm"):
+            out.append(dict(h="cohorts", op=kind + "two", key=f"cohorts/{kind}/grid=uneven/n=3/extra=r2/then_another_{other}_model_of_the_same_shape", kind=kind, grid="uneven", n=3, extra={"r": 2}, second=other))
     # result arrays handed over by the user in another memory layout (transposed views), two label dimensions
     for kind in KINDS:
         for extra in ({"r": 2, "p": 2}, {"r": 2, "p": 3}) if tier == "quick" else ({"r": 2, "p": 2}, {"r": 2, "p": 3}, {"r": 3, "p": 2, "q": 2}):
@@ -60,6 +64,10 @@ def configs(tier, seed):
             for ps in ("t", "tr", "r"):
                 for grid in (["unit", "uneven"] if tier == "quick" else dsm.GRIDS):
                     out.append(dict(h="realclass", op=kind + lt, key=f"realclass/{kind}/{lt}/prm={ps}/grid={grid}", kind=kind, lt=lt, ps=ps, grid=grid, n=3 if kind != "idsm" else 4, extra={"r": 2}))
+                    if ps == "r" and grid == "uneven":
+                        # the shipped classes with the other inflow instants (the cohort enters at the start / end of its interval)
+                        for ia in ("start", "end"):
+                            out.append(dict(h="realclass", op=kind + lt + ia, key=f"realclass/{kind}/{lt}/prm={ps}/grid={grid}/inflow_at={ia}", kind=kind, lt=lt, ps=ps, grid=grid, n=3, extra={"r": 2}, inflow_at=ia))
     # survival shares that are exactly 0 or 1 (FixedLifetime, concrete lifetimes per cohort on concrete grids whose interval
     # lengths are powers of two, so that flodym's float reciprocals are exact): later cohorts out- or under-living earlier ones
     for kind in KINDS:
@@ -99,7 +107,7 @@ def run(cfg, w):
             for x in A.flat:
                 w.assume(w.gt(x, 0))
             kw[name] = FlodymArray(dims=dims.get_subset(tuple(ps)), values=A.copy())
-        lifetime = getattr(lm, cfg["lt"])(dims=dims, **kw)
+        lifetime = getattr(lm, cfg["lt"])(dims=dims, inflow_at=cfg.get("inflow_at", "middle"), **kw)
         tab = lifetime.sf
         if w.sym:
             _axioms(w, w.ctx)
@@ -123,6 +131,11 @@ def run(cfg, w):
     else:
         st = dsm.build_stock(kind, dims, lifetime=lifetime, **drive)
     st.compute()
+    if cfg.get("second"):
+        k2 = kind if cfg["second"] == "same_kind" else "idsm"
+        tab2 = dsm.sf_table(w, n, shape[1:], name="sg", constrain=("range",), diag_min=(0.05 if k2.startswith("sdsm") else None))
+        st2 = dsm.build_stock(k2, dims, lifetime=dsm.AnyLifetime(dims=dims, table=tab2), name="second", **({"inflow": w.arr("in2", shape)} if k2 == "idsm" else {"stock": w.arr("st2", shape)}))
+        st2.compute()
     chain = kind.startswith("sdsm")
     S, I, O = st.stock.values, st.inflow.values, st.outflow.values
     sbc, obc = st.get_stock_by_cohort(), st.get_outflow_by_cohort()
